@@ -40,6 +40,11 @@ def _apply(root: str, v: dict) -> Optional[str]:
         src = src.replace(v["old"], v["new"], 1)
     else:
         src = src.replace(v["old"], v["new"])
+    for old2, new2 in v.get("also", ()):
+        # further edits of the same file that the variant needs to stay importable (a helper / constant it refers to)
+        if old2 not in src:
+            return "anchor text of an additional edit not found"
+        src = src.replace(old2, new2, 1)
     try:
         compile(src, path, "exec")
     except SyntaxError as e:
